@@ -87,6 +87,8 @@ pub struct Violation {
 pub struct Acc {
     pub evaluations: u64,
     pub distinct: HashSet<u64>,
+    /// distinct cases counted without hashing (enumerations whose elements are distinct by construction)
+    pub distinct_extra: u64,
     pub counters: BTreeMap<String, u64>,
     pub maxima: BTreeMap<String, u64>,
     pub violations: Vec<Violation>,
@@ -101,6 +103,7 @@ impl Acc {
         Acc {
             evaluations: 0,
             distinct: HashSet::new(),
+            distinct_extra: 0,
             counters: BTreeMap::new(),
             maxima: BTreeMap::new(),
             violations: Vec::new(),
@@ -159,7 +162,7 @@ impl Acc {
     pub fn to_json(&self) -> J {
         let mut j = J::obj();
         j.set("evaluations", J::u(self.evaluations));
-        j.set("distinct", J::u(self.distinct.len() as u64));
+        j.set("distinct", J::u(self.distinct.len() as u64 + self.distinct_extra));
         j.set("counters", J::Obj(self.counters.iter().map(|(k, v)| (k.clone(), J::u(*v))).collect()));
         j.set("maxima", J::Obj(self.maxima.iter().map(|(k, v)| (k.clone(), J::u(*v))).collect()));
         j.set(
